@@ -316,6 +316,30 @@ def body_large(ctx, conv):
         nj, ni = 260, 257
         ds = builders.cf1d(nj, ni, lat=numpy.linspace(-44.0, -10.0, nj), lon=numpy.linspace(110.0, 158.0, ni))
         dims = ('y', 'x')
+    elif conv == 'cf2d-bowtie0':
+        nj, ni = 2, 3
+        jj, ii = numpy.meshgrid(numpy.arange(nj, dtype=float), numpy.arange(ni, dtype=float), indexing='ij')
+        lat, lon = 10.0 + jj, 100.0 + ii
+        lonb = numpy.stack([lon - .5, lon + .5, lon + .5, lon - .5], axis=-1)
+        latb = numpy.stack([lat - .5, lat - .5, lat + .5, lat + .5], axis=-1)
+        lonb[0, 0] = lonb[0, 0][[0, 2, 1, 3]]
+        latb[0, 0] = latb[0, 0][[0, 2, 1, 3]]
+        ds = builders.cf2d(nj, ni, lat=lat, lon=lon, lat_bounds=latb, lon_bounds=lonb)
+        dims = tuple(ds['lat'].dims)
+    elif conv == 'mesh-bowtie0':
+        ds = builders.ugrid(([(0, 0), (1, 0), (1, 1), (0, 1), (2, 0), (2, 1), (3, 0), (3, 1)], [[0, 2, 1, 3], [1, 4, 5, 2], [4, 6, 7, 5]]))
+        dims = ('nface',)
+    elif conv == 'cf2d-nan-wrap':
+        # no stored bounds; centres missing in the second and in the last row of one column, and in the first and the
+        # second-last column of one row: the cells between them and the border keep their own centres
+        nj, ni = 5, 6
+        jj, ii = numpy.meshgrid(numpy.arange(nj, dtype=float), numpy.arange(ni, dtype=float), indexing='ij')
+        lat, lon = 10.0 + jj + 0.1 * ii, 100.0 + 2 * ii - 0.2 * jj
+        for (j, i) in ((1, 2), (4, 2), (2, 4), (2, 0)):
+            lat[j, i] = numpy.nan
+            lon[j, i] = numpy.nan
+        ds = builders.cf2d(nj, ni, lat=lat, lon=lon)
+        dims = tuple(ds['lat'].dims)
     elif conv == 'shoc-20k':
         nj, ni = 130, 154
         ds = builders.shoc_standard(nj, ni)
@@ -367,7 +391,7 @@ def body_large(ctx, conv):
 
 
 def cases(tier):
-    for conv in ('mesh-nonagon', 'mesh-fan9', 'mesh-poly34567', 'cf1d-huge', 'shoc-20k'):
+    for conv in ('cf2d-bowtie0', 'mesh-bowtie0', 'cf2d-nan-wrap', 'mesh-nonagon', 'mesh-fan9', 'mesh-poly34567', 'cf1d-huge', 'shoc-20k'):
         yield Case(f'large:{conv}', body_large, dict(conv=conv), max_paths=3)
     q = tier == 'quick'
     for conv in ('cf2d', 'shoc_simple'):
